@@ -515,9 +515,10 @@ class C11:
               # with equal arguments; the partials then exist once, written in specs[0]'s delimiters
               "loader_mode": rng.weighted([(None, 7), ("shared_choice", 1.5), ("fsfactory", 1.5)])}
         if sc["loader_mode"]:
-            # these loaders cache parsed templates: re-delimiting an environment cannot (and need not)
-            # re-parse what its own loader has cached, so the two are not combined
-            sc["ops"] = ops = [op for op in ops if not (op["op"] == "mutate" and op["m"][0] == "redelimit")]
+            # these loaders cache PARSED templates: re-configuring an environment (delimiters, tolerance,
+            # tags, flags) cannot - and need not - re-parse what its own loader has cached, while the
+            # reference parses everything under the final configuration; the two are not combined
+            sc["ops"] = ops = [op for op in ops if op["op"] != "mutate"]
         if rng.chance(0.3):
             # the same operations from 2-3 threads, each with its own environments
             sc.update(threads=rng.randint(2, 3), switch_p=rng.choice([0.02, 0.1, 0.3]),
